@@ -2,6 +2,7 @@ use crate::util::Tok;
 
 pub mod c01;
 mod c02;
+mod c02f;
 mod c03;
 mod c04;
 mod c05;
@@ -28,9 +29,11 @@ pub fn run(engine: &str, toks: Vec<Tok>) -> Vec<Tok> {
         "c03_is_global" => c03::is_global(toks),
         "c03_connect" => c03::connect(toks),
         "c03_v4_sweep" => c03::v4_sweep(toks),
+        "c02_front" => c02f::run(toks),
         "c04_eval" => c04::eval(toks),
         "c04_front" => c04::front(toks),
         "c05_select" => c05::select(toks),
+        "c05_front" => c05::front(toks),
         "c05_history" => c05::history(toks),
         "c05_codec" => c05::codec(toks),
         "c06_decode" => c06::decode(toks),
@@ -47,6 +50,7 @@ pub fn run(engine: &str, toks: Vec<Tok>) -> Vec<Tok> {
         "c20_scrub" => c20::scrub(toks),
         "c19_run" => c19::run(toks),
         "c16_run" => c16::run(toks),
+        "c16_udp" => c16::udp(toks),
         "c18_session" => c18::session(toks),
         "c12_extract" => c12::extract(toks),
         "c12_peek" => c12::peek(toks),
